@@ -186,14 +186,14 @@ def gen_ipc(ctx):
         return [poll("m", n=n), ("ct,%d" if timeout else "cm,%d") % cn]
     # exhaustive: all sequences of <= 3 fast ops over a small alphabet, one report at the end
     alpha = [["pb"], ["pp,1.2.3.4,US,0,1,1,r"], ["pp,1.2.3.4,US,0,1,1,m", "cm,2"], ["pp,1.2.3.4,US,5,2,0,m", "cm,0"],
-             ["pp,1.2.3.4,US,6,0,0,m", "cm,2"], ["pp,129.97.208.23,CA,0,2,1,m", "cm,1"], ["cd,2"], ["cd,1"], ["ze"]]
+             ["pp,129.97.208.23,CA,0,2,1,m", "cm,1"], ["cd,2"], ["ze"]] + ([["pp,1.2.3.4,US,6,0,0,m", "cm,2"], ["cd,1"]] if thorough else [])
     seqs = [[]]
     for depth in range(3 if not thorough else 4):
         seqs = seqs + [sq + [x] for sq in seqs if len(sq) == depth for x in alpha]
     for sq in seqs:
         add(1, [o for x in sq for o in x] + ["pr"], "ipc-exhaustive-small")
     # counts across the multiples of 8
-    for unit in alpha[1:8]:
+    for unit in alpha[1:6] + [["cd,1"], ["pp,1.2.3.4,US,6,0,0,m", "cm,2"]]:
         for k in list(range(6, 11)) + [15, 16, 17, 24, 25]:
             add(1, [o for _ in range(k) for o in unit] + ["pr"], "ipc-count-boundary")
     # random periods, fast ops only
@@ -225,7 +225,7 @@ def gen_ipc(ctx):
             ops += [poll("m", addr=a, t=t, n=n), "cm,%d" % (2 if n in (0, 1) else 0)]
         add(1, ops + ["pr", "ze", "pr"], "ipc-unique-addresses")
     # slow cases: idle polls (10 s broker timeout) and client timeouts, placed just before a report
-    for _ in range(10 if not thorough else 60):
+    for _ in range(6 if not thorough else 60):
         ops = []
         for _ in range(rng.choice([0, 2, 5])):
             ops += matched_pair() if rng.random() < 0.5 else ["cd,%d" % rng.randrange(3)]
@@ -363,7 +363,7 @@ def gen_round8(ctx):
         add("conc %d %d %d" % (k, 1, 40), "inc-conc-1")
         add("conc %d %d %d" % (k, rng.choice([3, 5, 7, 9, 11]), 20), "inc-conc-n")
     add("conc 4 25001 4", "inc-conc-bulk")
-    rounds = 4000 if not thorough else 40000
+    rounds = 2500 if not thorough else 40000
     for k in (2, 2, 3, 4, 8):
         add("race %d %d" % (k, rounds), "inc-race-at-boundary")
     add("race 1 50", "inc-race-at-boundary")
